@@ -284,6 +284,10 @@ def functional_recipes(rng, thorough=False):
         yield 'derived/scalar-sum/L1/' + n, lambda sp=sp: S.L1Norm(sp) + 1.25
         yield 'derived/quadratic-perturb/L1/' + n, lambda sp=sp: S.FunctionalQuadraticPerturb(S.L1Norm(sp), 0.5, g())
         yield 'derived/quadratic-perturb/linear-only/L2/' + n, lambda sp=sp: S.FunctionalQuadraticPerturb(S.L2Norm(sp), 0.0, g(), 0.3)
+        # a linear functional composed with a non-linear / affine operator is not linear
+        yield 'derived/comp(linear-functional,PowerOperator)/' + n, lambda sp=sp: S.QuadraticForm(vector=g()) * odl.PowerOperator(sp, 2)
+        yield 'derived/comp(linear-functional,affine)/' + n, lambda sp=sp: S.QuadraticForm(vector=g()) * (odl.IdentityOperator(sp) - g())
+        yield 'derived/comp(linear-functional,linear)/' + n, lambda sp=sp: S.QuadraticForm(vector=g()) * odl.ScalingOperator(sp, 1.5)
         # linear base functionals: the perturbed functional is linear only without quadratic and constant part
         yield 'derived/quadratic-perturb/linear-base/linear-term/' + n, lambda sp=sp: S.FunctionalQuadraticPerturb(S.ZeroFunctional(sp), 0.0, g())
         yield 'derived/quadratic-perturb/linear-base/constant/' + n, lambda sp=sp: S.FunctionalQuadraticPerturb(S.ZeroFunctional(sp), 0.0, g(), 2.0)
